@@ -460,13 +460,25 @@ theorem C38_page_partial {t : Trie} {es : Entries} (h : Rep t es) (pfx : Str) (p
 
 /-! ### runs of the harness language -/
 
-/-- invariant of every state a run reaches: the trie represents the map, and the map has at most
-    as many keys as `put`s were made (the bound of calls the harness loop uses) -/
+/-- invariant of every state a run reaches: the working trie represents the working map, which has
+    at most as many keys as `put`s were made (the bound of calls the harness loop uses); the same
+    for every committed state; and, unless changes are pending, the last committed state IS the
+    working state -/
 structure Good (s : St) : Prop where
   rep : Rep s.t s.es
   len : s.es.length ≤ s.puts
+  hist : ∀ st : Trie × Entries, st ∈ s.hist → Rep st.1 st.2 ∧ st.2.length ≤ s.puts
+  last : s.dirty = false → s.hist.getLast? = some (s.t, s.es)
 
-theorem good_init : Good St.init := ⟨Rep.empty, Nat.le_refl _⟩
+theorem good_init : Good St.init where
+  rep := Rep.empty
+  len := Nat.le_refl _
+  hist := by
+    intro st h
+    simp only [St.init, List.mem_singleton] at h
+    subst h
+    exact ⟨Rep.empty, Nat.le_refl _⟩
+  last := fun _ => rfl
 
 theorem length_upsert_le (k v : Bytes) (es : Entries) :
     (OMap.upsert k v es).length ≤ es.length + 1 := by
@@ -480,28 +492,51 @@ theorem length_upsert_le (k v : Bytes) (es : Entries) :
       · simp
       · simp only [List.length_cons]; omega
 
+theorem good_commit {s : St} (h : Good s) : Good s.commit := by
+  unfold St.commit
+  split
+  · refine ⟨h.rep, h.len, ?_, fun _ => by simp⟩
+    intro st hst
+    rcases List.mem_append.mp hst with hst | hst
+    · exact h.hist st hst
+    · simp only [List.mem_singleton] at hst; subst hst; exact ⟨h.rep, h.len⟩
+  · exact h
+
 theorem good_apply {s : St} (h : Good s) (op : Op) : Good (s.apply op) := by
   cases op with
   | put k v =>
-    exact ⟨h.rep.put k v, by
-      have := length_upsert_le k v s.es
+    refine ⟨h.rep.put k v, ?_, ?_, fun hd => by simp [St.apply] at hd⟩
+    · have := length_upsert_le k v s.es
       have := h.len
-      simp only [St.apply]; omega⟩
+      simp only [St.apply]; omega
+    · intro st hst
+      have := h.hist st hst
+      exact ⟨this.1, by simp only [St.apply]; omega⟩
   | del k =>
     simp only [St.apply]
     split
     · rename_i hk
       obtain ⟨v, hv⟩ := Option.isSome_iff_exists.mp hk
-      refine ⟨C02.C02_delete_present h.rep k v hv, ?_⟩
+      refine ⟨C02.C02_delete_present h.rep k v hv, ?_, h.hist, fun hd => by simp at hd⟩
       have : (OMap.erase k s.es).length ≤ s.es.length := List.length_filter_le _ _
       have := h.len
       show (OMap.erase k s.es).length ≤ s.puts
       omega
     · exact h
-  | page _ _ _ => exact h
-  | loop _ _ => exact h
-  | pairs _ => exact h
+  | page _ _ _ => exact good_commit h
+  | loop _ _ => exact good_commit h
+  | pairs _ => exact good_commit h
+  | «at» _ _ => exact h
   | bad => exact h
+
+/-- a request without a block is answered from the LATEST state: the last committed state once the
+    pending changes are committed is the working state, whatever was listed before -/
+theorem best_eq {s : St} (h : Good s) : s.best = (s.t, s.es) := by
+  unfold St.best St.commit
+  split
+  · simp
+  · rename_i hd
+    rw [h.last (by simpa using hd)]; rfl
 
 /-- the state after a run -/
 def finalSt (ops : List Op) : St := ops.foldl St.apply St.init
@@ -514,67 +549,89 @@ theorem good_foldl (ops : List Op) : ∀ s, Good s → Good (ops.foldl St.apply 
 /-- every state the harness language can build is represented exactly (for all op lists) -/
 theorem C38_state_rep (ops : List Op) : Good (finalSt ops) := good_foldl ops _ good_init
 
+/-- **C38_history**: after ANY history of state changes, commits (new best blocks) and listings,
+    every committed state is still represented exactly by its trie, and a request without a block
+    resolves to the latest state — listings never influence later listings. -/
+theorem C38_history (ops : List Op) :
+    (∀ (i : Nat) (st : Trie × Entries), (finalSt ops).hist[i]? = some st → Rep st.1 st.2) ∧
+    (finalSt ops).best = ((finalSt ops).t, (finalSt ops).es) := by
+  have g := C38_state_rep ops
+  exact ⟨fun i st h => (g.hist st (List.mem_of_getElem? h)).1, best_eq g⟩
+
 theorem length_keysWithPrefix_le (p : Bytes) (es : Entries) :
     (OMap.keysWithPrefix p es).length ≤ es.length := by
   simp only [OMap.keysWithPrefix, List.length_map]; exact List.length_filter_le _ _
 
 /-- **C38_pages_partition** for the run itself: in every reachable state the bound of calls the
     harness (and the driver) uses, `puts + 2`, is enough — the loop never reports `nonterm` — and
-    the pages are the chunks of the matching keys. -/
+    the pages of the best block's state are the chunks of the matching keys of the latest map. -/
 theorem C38_pages_run_partial (ops : List Op) (pfx : Str) (p : Bytes) (hp : prefixOf pfx = some p)
     (hreg : trimRegion p (finalSt ops).es = false) (q : Nat) (hq : 1 ≤ q) :
-    paginate (getKeysPaged (trieStore (finalSt ops).t) true pfx q) ((finalSt ops).puts + 2) [] =
+    paginate (getKeysPaged (trieStore (finalSt ops).best.1) true pfx q) ((finalSt ops).puts + 2) [] =
       (chunk q ((OMap.keysWithPrefix p (finalSt ops).es).map fKey), LoopEnd.done) := by
   have g := C38_state_rep ops
+  rw [best_eq g]
   apply C38_pages_partition_partial g.rep pfx p hp hreg q hq
   have := length_keysWithPrefix_le p (finalSt ops).es
   have := g.len
   omega
 
+/-- … and the same for every earlier state addressed by its root: the pages are the chunks of the
+    matching keys of THAT state's map -/
+theorem C38_pages_at_partial (ops : List Op) (i : Nat) (st : Trie × Entries)
+    (hi : (finalSt ops).hist[i]? = some st) (pfx : Str) (p : Bytes) (hp : prefixOf pfx = some p)
+    (hreg : trimRegion p st.2 = false) (q : Nat) (hq : 1 ≤ q) :
+    paginate (getKeysPaged (trieStore st.1) true pfx q) ((finalSt ops).puts + 2) [] =
+      (chunk q ((OMap.keysWithPrefix p st.2).map fKey), LoopEnd.done) := by
+  have g := (C38_state_rep ops).hist st (List.mem_of_getElem? hi)
+  apply C38_pages_partition_partial g.1 pfx p hp hreg q hq
+  have := length_keysWithPrefix_le p st.2
+  omega
+
 /-- the op lies outside of both known-finding regions (this is `kfTag addr s op = ""`) -/
 def opSafe (addr : Addr) (s : St) : Op → Bool
-  | .page p _ _ =>
-    match prefixOf p with
+  | .at i q =>
+    match s.hist[i]?, listedPrefix q with
+    | some st, some hp => !trimRegion hp st.2
+    | _, _ => true
+  | op =>
+    match listedPrefix op with
     | none => true
-    | some hp => addr != .blk && !trimRegion hp s.es
-  | .loop p _ =>
-    match prefixOf p with
-    | none => true
-    | some hp => addr != .blk && !trimRegion hp s.es
-  | .pairs (some p) =>
-    match hexToBytes? p with
-    | none => true
-    | some hp => !trimRegion hp s.es
-  | _ => true
+    | some hp => !(op.isPaged && addr == .blk) && !trimRegion hp s.best.2
 
 theorem opSafe_iff_no_tag (addr : Addr) (s : St) (op : Op) :
     opSafe addr s op = true ↔ kfTag addr s op = "" := by
   cases op with
+  | «at» i q =>
+    simp only [opSafe, kfTag]
+    cases s.hist[i]? with
+    | none => simp
+    | some st =>
+      cases listedPrefix q with
+      | none => simp
+      | some hp => cases ht : trimRegion hp st.2 <;> simp [ht]
   | page p q a =>
     simp only [opSafe, kfTag]
-    cases prefixOf p with
+    cases listedPrefix (.page p q a) with
     | none => simp
-    | some hp => cases addr <;> cases ht : trimRegion hp s.es <;> simp [ht] <;> decide
+    | some hp => cases addr <;> cases ht : trimRegion hp s.best.2 <;> simp [ht, Op.isPaged] <;> decide
   | loop p q =>
     simp only [opSafe, kfTag]
-    cases prefixOf p with
+    cases listedPrefix (.loop p q) with
     | none => simp
-    | some hp => cases addr <;> cases ht : trimRegion hp s.es <;> simp [ht] <;> decide
+    | some hp => cases addr <;> cases ht : trimRegion hp s.best.2 <;> simp [ht, Op.isPaged] <;> decide
   | pairs p =>
-    cases p with
-    | none => simp [opSafe, kfTag]
-    | some p =>
-      simp only [opSafe, kfTag]
-      cases hexToBytes? p with
-      | none => simp
-      | some hp => cases ht : trimRegion hp s.es <;> simp [ht]
-  | put _ _ => simp [opSafe, kfTag]
-  | del _ => simp [opSafe, kfTag]
-  | bad => simp [opSafe, kfTag]
+    simp only [opSafe, kfTag]
+    cases listedPrefix (.pairs p) with
+    | none => simp
+    | some hp => cases ht : trimRegion hp s.best.2 <;> simp [ht, Op.isPaged]
+  | put _ _ => simp [opSafe, kfTag, listedPrefix]
+  | del _ => simp [opSafe, kfTag, listedPrefix]
+  | bad => simp [opSafe, kfTag, listedPrefix]
 
-theorem paged_agree {s : St} (h : Good s) (b : Bool) (pfx : Str)
-    (hsafe : ∀ hp, prefixOf pfx = some hp → trimRegion hp s.es = false) (q : Nat) :
-    getKeysPaged (trieStore s.t) b pfx q = getKeysPaged (mapStore s.es) b pfx q := by
+theorem paged_agree {t : Trie} {es : Entries} (h : Rep t es) (b : Bool) (pfx : Str)
+    (hsafe : ∀ hp, prefixOf pfx = some hp → trimRegion hp es = false) (q : Nat) :
+    getKeysPaged (trieStore t) b pfx q = getKeysPaged (mapStore es) b pfx q := by
   funext a
   cases hp : prefixOf pfx with
   | none => rw [getKeysPaged_bad _ _ _ hp, getKeysPaged_bad _ _ _ hp]
@@ -583,22 +640,22 @@ theorem paged_agree {s : St} (h : Good s) (b : Bool) (pfx : Str)
     | false => rw [getKeysPaged_unknown_root, getKeysPaged_unknown_root]
     | true =>
       rw [getKeysPaged_eq _ pfx p hp, getKeysPaged_eq _ pfx p hp]
-      simp only [trieStore, mapStore, C02.C02_keysWithPrefix_partial h.rep p (hsafe p hp)]
+      simp only [trieStore, mapStore, C02.C02_keysWithPrefix_partial h p (hsafe p hp)]
 
-theorem pairs_agree {s : St} (h : Good s) (b : Bool) (pfx : Option Str)
-    (hsafe : ∀ p hp, pfx = some p → hexToBytes? p = some hp → trimRegion hp s.es = false) :
-    getPairs (trieStore s.t) b pfx = getPairs (mapStore s.es) b pfx := by
+theorem pairs_agree {t : Trie} {es : Entries} (h : Rep t es) (b : Bool) (pfx : Option Str)
+    (hsafe : ∀ p hp, pfx = some p → hexToBytes? p = some hp → trimRegion hp es = false) :
+    getPairs (trieStore t) b pfx = getPairs (mapStore es) b pfx := by
   cases b with
   | false => simp [getPairs]
   | true =>
     by_cases hall : pfx = none ∨ pfx = some [] ∨ pfx = some ['0', 'x']
-    · rw [getPairs_all h.rep pfx hall]
+    · rw [getPairs_all h pfx hall]
       simp only [getPairs, Bool.not_true, Bool.false_eq_true, if_false, hall, if_true, mapStore,
         List.map_map, specPairs_nil]
       have : ((fun e : Bytes × Option Bytes => (fKey e.1, optHex e.2)) ∘
           fun e : Bytes × Bytes => (e.1, some e.2)) = fun e => (fKey e.1, fKey e.2) := by
         funext e; rfl
-      rw [this, sortPairs_sorted h.rep.sorted]
+      rw [this, sortPairs_sorted h.sorted]
     · cases pfx with
       | none => simp at hall
       | some p =>
@@ -606,48 +663,110 @@ theorem pairs_agree {s : St} (h : Good s) (b : Bool) (pfx : Option Str)
         cases hp : hexToBytes? p with
         | none => simp [getPairs, hall, hp, hne]
         | some hpb =>
-          rw [getPairs_prefix h.rep p hpb hp hne (hsafe p hpb rfl hp)]
+          rw [getPairs_prefix h p hpb hp hne (hsafe p hpb rfl hp)]
           simp only [getPairs, Bool.not_true, Bool.false_eq_true, if_false, hall, Option.getD_some,
             hp, mapStore, OMap.keysWithPrefix, List.map_map, specPairs]
           congr 1
           apply List.map_congr_left
           intro e he
-          have hmem : e ∈ s.es := (List.mem_filter.mp he).1
-          simp only [Function.comp, OMap.get_of_mem_sorted h.rep.sorted hmem, optHex]
+          have hmem : e ∈ es := (List.mem_filter.mp he).1
+          simp only [Function.comp, OMap.get_of_mem_sorted h.sorted hmem, optHex]
 
-/-- one op: outside the regions the Go model gives the observable of the specification -/
-theorem step_refines {s : St} (h : Good s) (addr : Addr) (op : Op)
-    (hs : opSafe addr s op = true) : stepModel addr s op = stepSpec addr s op := by
+/-- a request against a represented state, outside the trimmed-prefix region: the Go stores and
+    the ordered map give the same observable (same resolution flags) -/
+theorem observe_agree {t : Trie} {es : Entries} (h : Rep t es) (b1 b2 : Bool) (fuel : Nat) (op : Op)
+    (hsafe : ∀ hp, listedPrefix op = some hp → trimRegion hp es = false) :
+    observe (trieStore t) b1 b2 fuel op = observe (mapStore es) b1 b2 fuel op := by
   cases op with
   | put _ _ => rfl
   | del _ => rfl
   | bad => rfl
+  | «at» _ _ => rfl
   | page p q a =>
-    simp only [opSafe] at hs
-    simp only [stepModel, stepSpec, observe]
-    cases hp : prefixOf p with
-    | none => rw [getKeysPaged_bad _ _ _ hp, getKeysPaged_bad _ _ _ hp]
-    | some hpb =>
-      simp only [hp, Bool.and_eq_true, Bool.not_eq_true'] at hs
-      rw [hs.1, paged_agree h true p (fun x hx => by rw [hp] at hx; cases hx; exact hs.2)]
+    simp only [observe]
+    rw [paged_agree h b1 p (fun hp e => hsafe hp (by simpa [listedPrefix] using e))]
   | loop p q =>
-    simp only [opSafe] at hs
-    simp only [stepModel, stepSpec, observe]
-    cases hp : prefixOf p with
-    | none =>
-      have e : ∀ (S : Store) (b : Bool), getKeysPaged S b p q = fun _ => none := by
-        intro S b; funext a; exact getKeysPaged_bad _ _ _ hp _ _
-      rw [e, e]
-    | some hpb =>
-      simp only [hp, Bool.and_eq_true, Bool.not_eq_true'] at hs
-      rw [hs.1, paged_agree h true p (fun x hx => by rw [hp] at hx; cases hx; exact hs.2)]
+    simp only [observe]
+    rw [paged_agree h b1 p (fun hp e => hsafe hp (by simpa [listedPrefix] using e))]
   | pairs p =>
-    simp only [stepModel, stepSpec, observe]
-    rw [pairs_agree h _ p]
+    simp only [observe]
+    rw [pairs_agree h b2 p]
     intro p' hp' e he
     subst e
-    simp only [opSafe, he, Bool.not_eq_true'] at hs
-    exact hs
+    exact hsafe hp' (by simpa [listedPrefix] using he)
+
+/-- the root-resolution flag of `GetKeysPaged` only matters for a paged request with a valid prefix -/
+theorem observe_flag (S : Store) (b b' b2 : Bool) (fuel : Nat) (op : Op)
+    (h : op.isPaged = false ∨ listedPrefix op = none) :
+    observe S b b2 fuel op = observe S b' b2 fuel op := by
+  cases op with
+  | put _ _ => rfl
+  | del _ => rfl
+  | bad => rfl
+  | «at» _ _ => rfl
+  | pairs _ => rfl
+  | page p q a =>
+    rcases h with h | h
+    · simp [Op.isPaged] at h
+    · simp only [listedPrefix] at h
+      simp only [observe, getKeysPaged_bad _ _ _ h]
+  | loop p q =>
+    rcases h with h | h
+    · simp [Op.isPaged] at h
+    · simp only [listedPrefix] at h
+      have e : ∀ b, getKeysPaged S b p q = fun _ => none := by
+        intro b; funext a; exact getKeysPaged_bad _ _ _ h _ _
+      simp only [observe, e]
+
+/-- one op: outside the regions the Go model gives the observable of the specification -/
+theorem step_refines {s : St} (h : Good s) (addr : Addr) (op : Op)
+    (hs : opSafe addr s op = true) : stepModel addr s op = stepSpec addr s op := by
+  have hb := best_eq h
+  have key : ∀ op' : Op,
+      (match listedPrefix op' with
+        | none => true
+        | some hp => !(op'.isPaged && addr == .blk) && !trimRegion hp s.best.2) = true →
+      observe (trieStore s.best.1) (addr != .blk) (addr != .root) (s.puts + 2) op' =
+        observe (mapStore s.best.2) true (addr != .root) (s.puts + 2) op' := by
+    intro op' hs'
+    rw [hb] at hs' ⊢
+    cases hl : listedPrefix op' with
+    | none =>
+      rw [observe_flag _ (addr != .blk) true _ _ _ (Or.inr hl)]
+      exact observe_agree h.rep _ _ _ _ (fun hp e => by rw [hl] at e; cases e)
+    | some hp =>
+      rw [hl] at hs'
+      simp only [Bool.and_eq_true, Bool.not_eq_true', Bool.and_eq_false_iff] at hs'
+      have hreg := hs'.2
+      have hflag : observe (trieStore s.t) (addr != .blk) (addr != .root) (s.puts + 2) op' =
+          observe (trieStore s.t) true (addr != .root) (s.puts + 2) op' := by
+        rcases hs'.1 with hp' | ha
+        · exact observe_flag _ _ _ _ _ _ (Or.inl hp')
+        · have : (addr != .blk) = true := by cases addr <;> simp_all
+          rw [this]
+      rw [hflag]
+      exact observe_agree h.rep _ _ _ _ (fun hp2 e => by rw [hl] at e; cases e; exact hreg)
+  cases op with
+  | «at» i q =>
+    simp only [opSafe] at hs
+    simp only [stepModel, stepSpec]
+    split
+    · cases hst : s.hist[i]? with
+      | none => rfl
+      | some st =>
+        simp only
+        have g := h.hist st (List.mem_of_getElem? hst)
+        apply observe_agree g.1
+        intro hp e
+        rw [hst, e] at hs
+        simpa using hs
+    · rfl
+  | put k v => exact key (.put k v) (by simpa [opSafe] using hs)
+  | del k => exact key (.del k) (by simpa [opSafe] using hs)
+  | bad => exact key (.bad) (by simpa [opSafe] using hs)
+  | page p q a => exact key (.page p q a) (by simpa [opSafe] using hs)
+  | loop p q => exact key (.loop p q) (by simpa [opSafe] using hs)
+  | pairs p => exact key (.pairs p) (by simpa [opSafe] using hs)
 
 /-- no op of the run lies in a known-finding region -/
 def safeFrom (addr : Addr) (s : St) : List Op → Bool
@@ -664,18 +783,22 @@ theorem refines_from (addr : Addr) (ops : List Op) : ∀ s, Good s → safeFrom 
     simp only [runFrom, step_refines h addr op hs.1, ih _ (good_apply h op) hs.2]
 
 /-- FULL STATEMENT (false for the code): `∀ addr ops, runFrom (stepModel addr) St.init ops =
-    runFrom (stepSpec addr) St.init ops`.  Every run of put / del / page / loop / pairs, with the
-    block field empty, a state root or a block hash, all of whose ops stay outside the regions of
-    the two known findings gives exactly the observables of the specification. -/
+    runFrom (stepSpec addr) St.init ops`.  Every run of put / del / page / loop / pairs and of
+    requests against earlier states (`at i`), with the block field empty, a state root or a block
+    hash, all of whose ops stay outside the regions of the two known findings gives exactly the
+    observables of the specification: each listing shows the keys of the state it addresses (the
+    latest one when no block is given), however many blocks and listings came before. -/
 theorem C38_refines_partial (addr : Addr) (ops : List Op) (hs : safeFrom addr St.init ops = true) :
     runFrom (stepModel addr) St.init ops = runFrom (stepSpec addr) St.init ops :=
   refines_from addr ops _ good_init hs
 
 /-- the hypothesis is not vacuous: a run with keys that are prefixes of keys, a prefix ending in a
-    zero nibble that is harmless in this state, overwrites and a delete is safe -/
+    zero nibble that is harmless in this state, overwrites, a delete, several blocks, the same
+    listing before and after a change and a listing of an earlier state is safe -/
 example : safeFrom Addr.nil St.init
     [.put [0x10] [1], .put [0x10, 0x01] [2], .put [] [3], .put [0x20] [4],
      .loop ['0', 'x', '1', '0'] 1, .page ['0', 'x'] 2 ['0', 'x', '1', '0'], .del [0x10],
+     .loop ['0', 'x', '1', '0'] 1, .at 1 (.loop ['0', 'x', '1', '0'] 1),
      .pairs (some ['0', 'x', '1', '0']), .pairs none, .loop [] 3] = true := by decide
 
 end Gossamer.C38
